@@ -22,6 +22,8 @@
 import BufrModel.Props.C09
 import BufrModel.Lemmas.WireSimComp
 import BufrModel.Lemmas.WireSimLinks
+import BufrModel.Props.C07Walk
+import BufrModel.Props.C07Spec
 namespace Bufr
 open Bufr.C09
 
@@ -202,23 +204,146 @@ theorem C09_compressed_missing_count_breaks :
     some ([[.int 1, .int 9], [.missing, .int 9]], some [some [.int 1, .int 9], none]) ∧
     decodeCompressed exTM 2 exBitsM = .error .lib := by decide +kernel
 
-/-! ## Stage 2 (NOT closed): 206YYY and the bitmap machine without associated fields
+/-! ## Stage 2: 206YYY and the bitmap machine without associated fields
 
   `C09.wireLinksOK` (View/WireClass.lean) is the decidable class: an abstract interpretation of the template that
   keeps the wiring pass's own flags, the SET of values the coder's QA status can have, the two stats-meaning flags
-  and a pending 206 skip; no 203 / 204 / 221; a class 33 element only where both walks agree on what it is.
-  PROVED (Lemmas/WireSimLinks.lean): the coder's side of every step (`bitmapDefinition_vis`: the bitmap-definition
-  machine touches nothing the wiring pass sees; `elementDescriptor_links` / `qaPart_done`: an element records at most
-  one link, keyed by its own position, exactly when it is of class 33 and the QA status is not `na`, then ONE item),
-  soundness of the abstract QA transfer functions (`qaIn_non33`, `qaIn_c33`, `qaIn_marker`), the relation `R` with
-  its three constructors (`R.value`, `R.stay`, `R.attr`: the attribute is put under the owner `lookupLink` finds),
-  `lookupLink_mem`, the evaluation of the wiring pass's steps (`wireElement_plain`, `bitmapAttr_eval`).
-  MISSING: the mutual induction over the template that chains these steps (`walkList_sim2 : absList ds a = some a' →
-  Inv2 a s → walkList P ds s = .ok s' → Sim2 a a' ...`), hence the theorem
-  `wireLinksOK t → decodeSubset t bits = .ok (o, _) → ∃ w, wireRaw t o = .ok w ∧ w.st.next = o.vals.length ∧ w.sideOK o`.
-  Until then the implication is CHECKED on every case of the correspondence run (driver: `wire_links_ok`, `side_ok`;
-  harness counter `inside-wireLinksOK`), and the examples below evaluate it on the shapes the class admits and show
-  that each shape it excludes really breaks the statement. -/
+  (forgotten at every operator that announces a bit-map) and a pending 206 skip; no 203 / 204 / 221; a class 33
+  element only where both walks agree on what it is; replication bodies a fixed point after one round.
+  PROVED (Lemmas/WireSimLinks.lean, `walkList_sim2` / `walk1_sim2`: mutual induction over the template, every step of
+  the coder followed by the step of the wiring pass; `walk_linked`), for EVERY bit string:
+
+  * `C09_decode_links_wire_partial` — a successful decode is wired successfully, the pass consumes exactly the decoded
+    values, the tree holds every flat index once in flat order, the side conditions `Wired.sideOK` hold;
+  * `C09_decode_links_owner_partial` — every attribute attached through the bit-map sits under the owner the coder's
+    link names (`lookupLink o.links`), the owner lies in front of it, and every link the coder recorded is shown;
+  * `C09_decode_links_owner_eq_spec_partial` — on templates that are also `Spec.WFlinks` (and items `markersOk`) the
+    owner is the owner `Spec.links` computes from the flat items alone (`C07_links_eq_spec`);
+  * `C09_decode_links_nested_json_to_flat_partial` — nested JSON -> flat returns the decoded values once attachment and
+    rendering succeed;
+  * `C09_decode_compressed_links_wire_partial` — compressed data: the same for the tree wired from subset 0.
+  MISSING: that attachment (`Wired.tree`, fuel `next + 2`) and rendering always succeed on this class.  The facts the
+  argument needs are proved (`Linked.owners`: owner < attribute, the meaning node of a stats marker lies strictly
+  between owner and marker, so no attribute cycle; `Linked.good`: every index of the tree is inside the flat lists);
+  the induction over the fuel of `resolveV` is not written.  For compressed data the statement is about subset 0 (the
+  other subsets share labels and links; that they are as long is proved for `quietList` only). -/
+
+theorem C09_links_of_sound {o : SubsetOut}
+    (h : ∀ l ∈ o.links, ∃ e, o.descs[l.2]? = some (.plain e) ∧
+      ∃ p id, l.2 < p ∧ p < l.1 ∧ C07.IsBitmapOp id ∧ o.descs[p]? = some (.oper id)) :
+    ∀ l ∈ o.links, ∃ p id, l.2 < p ∧ p < l.1 ∧ C07.IsBitmapOp id ∧ o.descs[p]? = some (.oper id) :=
+  fun l hl => (h l hl).elim fun _ x => x.2
+
+/-- the link to the coder for `wireLinksOK` templates, uncompressed -/
+theorem C09_decode_links_linked (t : List Desc) (hq : wireLinksOK t = true) (bits rest : Bits) (o : SubsetOut)
+    (h : decodeSubset t bits = .ok (o, rest)) : ∃ w, Linked t o w := by
+  have hsound := C09_links_of_sound (C07_links_sound_partial t bits o rest h)
+  unfold decodeSubset at h
+  split at h
+  · cases h
+  · next s hs =>
+    injection h with h
+    injection h with ho _
+    subst ho
+    refine walk_linked pushOne_decPrimsU hq rfl rfl rfl ⟨[], rfl⟩ ?_ hs rfl rfl ?_ hsound
+    · intro l hl
+      rw [List.mem_singleton] at hl
+      exact hl
+    · intro l hl
+      show (s.vals.headD []).reverse = _
+      rw [List.headD_eq_head?_getD, hl]
+      rfl
+
+/-- `wireLinksOK` templates (206YYY, bit-map operators, markers, quality values; no 203 / 204 / 221): whatever bits are
+    decoded, a successful decode of a subset is wired successfully, the pass consumes exactly the decoded values, the
+    tree holds every decoded value exactly once in flat order and the side conditions of the conversion theorem hold.
+    MISSING for the full statement: templates outside `wireLinksOK` and `quietList` (204 over 203 / 206 / markers /
+    008023 / class 33, F15, QA across an operator: false there, see the examples below). -/
+theorem C09_decode_links_wire_partial (t : List Desc) (hq : wireLinksOK t = true) (bits rest : Bits) (o : SubsetOut)
+    (h : decodeSubset t bits = .ok (o, rest)) :
+    ∃ w, wireRaw t o = .ok w ∧ w.st.next = o.vals.length ∧ idxList w.nodes = List.range o.vals.length ∧
+      w.sideOK o = true := by
+  obtain ⟨w, hl⟩ := C09_decode_links_linked t hq bits rest o h
+  exact ⟨w, hl.wired, hl.next, C09_wire_consumes_each_index_once_partial t o w hl.wired hl.next, hl.sideOK⟩
+
+/-- attribute values (quality information, substituted / first-order / difference / replaced values) are attributes of
+    the element the coder's bit-map link names, which precedes them; and every link the coder recorded is shown -/
+theorem C09_decode_links_owner_partial (t : List Desc) (hq : wireLinksOK t = true) (bits rest : Bits) (o : SubsetOut)
+    (h : decodeSubset t bits = .ok (o, rest)) :
+    ∃ w, wireRaw t o = .ok w ∧
+      (∀ p ∈ w.st.tab, ∃ k i own, p.2 = .value k i own ∧ p.1 < i ∧ lookupLink o.links i = some p.1) ∧
+      (∀ q ∈ o.links, ∃ p ∈ w.st.tab, p.2.index? = some q.1) := by
+  obtain ⟨w, hl⟩ := C09_decode_links_linked t hq bits rest o h
+  refine ⟨w, hl.wired, fun p hp => ?_, hl.shown⟩
+  obtain ⟨k, i, own, e, h1, _, h3, _⟩ := hl.owners p hp
+  exact ⟨k, i, own, e, h1, h3⟩
+
+/-- the connection to C07: on templates that are also `Spec.WFlinks` the owner in the tree is the owner `Spec.links`
+    computes after the fact from the flat items -/
+theorem C09_decode_links_owner_eq_spec_partial (t : List Desc) (hq : wireLinksOK t = true) (hwf : Spec.WFlinks t)
+    (bits rest : Bits) (o : SubsetOut) (h : decodeSubset t bits = .ok (o, rest))
+    (hok : Spec.markersOk (o.descs.zip o.vals) = true) :
+    ∃ w, wireRaw t o = .ok w ∧
+      ∀ p ∈ w.st.tab, ∃ k i own, p.2 = .value k i own ∧
+        lookupLink (Spec.links (o.descs.zip o.vals) (Spec.cancelsL decPrimsU t { bits := bits, vals := [[]] })) i
+          = some p.1 := by
+  obtain ⟨w, hw, hown, _⟩ := C09_decode_links_owner_partial t hq bits rest o h
+  refine ⟨w, hw, fun p hp => ?_⟩
+  obtain ⟨k, i, own, e, _, h3⟩ := hown p hp
+  rw [C07_links_eq_spec t bits o rest h hwf hok] at h3
+  exact ⟨k, i, own, e, h3⟩
+
+/-- nested JSON -> flat for the class: all the decidable hypotheses of `C09_nested_json_to_flat_partial` hold; what is
+    left as hypothesis is that attachment and rendering succeed (MISSING: see the section header) -/
+theorem C09_decode_links_nested_json_to_flat_partial (t : List Desc) (hq : wireLinksOK t = true) (bits rest : Bits)
+    (o : SubsetOut) (h : decodeSubset t bits = .ok (o, rest)) :
+    ∃ w, wireRaw t o = .ok w ∧ ∀ tree js, w.tree = .ok tree → renderNested o tree = .ok js →
+      nestedJsonToFlat js = .ok o.vals := by
+  obtain ⟨w, hl⟩ := C09_decode_links_linked t hq bits rest o h
+  exact ⟨w, hl.wired, fun tree js ht hj => C09_nested_json_to_flat_partial t o w tree js hl.wired hl.sideOK ht hj⟩
+
+/-- compressed data: the (single) wiring pass on the flat lists of subset 0 -/
+theorem C09_decode_compressed_links_wire_partial (t : List Desc) (hq : wireLinksOK t = true) (n : Nat)
+    (bits rest : Bits) (outs : List SubsetOut) (o0 : SubsetOut)
+    (h : decodeCompressed t n bits = .ok (outs, rest)) (h0 : outs.head? = some o0) :
+    ∃ w, wireRaw t o0 = .ok w ∧ w.st.next = o0.vals.length ∧ idxList w.nodes = List.range o0.vals.length ∧
+      w.sideOK o0 = true ∧
+      (∀ p ∈ w.st.tab, ∃ k i own, p.2 = .value k i own ∧ p.1 < i ∧ lookupLink o0.links i = some p.1) ∧
+      (∀ q ∈ o0.links, ∃ p ∈ w.st.tab, p.2.index? = some q.1) := by
+  have hmem : o0 ∈ outs := List.mem_of_mem_head? h0
+  have hsound := C09_links_of_sound
+    (C07_links_sound_message_partial t true n bits outs rest (by simp only [decodeData, if_true]; exact h) o0 hmem)
+  unfold decodeCompressed at h
+  split at h
+  · cases h
+  · next s hs =>
+    injection h with h
+    injection h with ho _
+    subst ho
+    have hv : ∃ l r, s.vals = l :: r ∧ o0 = { descs := s.descs.reverse, vals := l.reverse, links := s.links.reverse } := by
+      unfold St.outs at h0
+      cases hvv : s.vals with
+      | nil => rw [hvv] at h0; cases h0
+      | cons l r =>
+        rw [hvv] at h0
+        simp only [List.map_cons, List.head?_cons, Option.some.injEq] at h0
+        exact ⟨l, r, rfl, h0.symm⟩
+    obtain ⟨l, r, hvl, ho0⟩ := hv
+    cases n with
+    | zero =>
+      exfalso
+      have g := C07.grows_walkList C07.decPrimsC_rec t _ s (by rfl) hs
+      have hlen : s.vals.length = 0 := g.2.2.1
+      rw [hvl] at hlen
+      cases hlen
+    | succ n =>
+      obtain ⟨w, hl⟩ := walk_linked (o := o0) pushOne_decPrimsC hq rfl rfl rfl ⟨List.replicate n [], rfl⟩
+        (fun l hl => (List.mem_replicate.mp hl).2) hs (by rw [ho0]) (by rw [ho0])
+        (fun l' hl' => by rw [hvl] at hl'; injection hl' with hl'; rw [ho0, hl']) hsound
+      refine ⟨w, hl.wired, hl.next, C09_wire_consumes_each_index_once_partial t o0 w hl.wired hl.next, hl.sideOK,
+        fun p hp => ?_, hl.shown⟩
+      obtain ⟨k, i, own, e, h1, _, h3, _⟩ := hl.owners p hp
+      exact ⟨k, i, own, e, h1, h3⟩
 
 /-- the statement, evaluated: the decode succeeds, the pass succeeds, consumed everything, side conditions hold, every
     attached attribute sits under the owner the coder's link names and every link is shown -/
@@ -248,6 +373,8 @@ def exIn : List Desc :=
 
 example : wireLinksOK exIn = true ∧ quietList false exIn = false ∧ quietList true exIn = false := by decide +kernel
 example : linkStatement exIn (zeros' 200) = true := by decide +kernel
+/-- the hypotheses of `C09_decode_links_*_partial` are satisfiable: `exIn` is in the class and decodes -/
+example : wireLinksOK exIn = true ∧ (decodeSubset exIn (zeros' 200)).toOption.isSome = true := by decide +kernel
 
 /-- inside: a delayed definition and a delayed run of quality values: `012001 222000 101000 031001 031031 101000 031001 033007` -/
 def exIn2 : List Desc :=
@@ -303,5 +430,17 @@ def exSkipRep : List Desc := [.op 206008, .fixedRep 101002 [.elem (exE 12001 12)
 example : wireLinksOK exSkipRep = false := by decide +kernel
 example : (decodeSubset exSkipRep (zeros' 60)).toOption.isSome = true ∧
     linkStatement exSkipRep (zeros' 60) = false := by decide +kernel
+
+/-- non-vacuity of `C09_decode_links_owner_eq_spec_partial`: a template that is in `wireLinksOK` AND `Spec.WFlinks`, whose
+    decoded items are `markersOk` (222000 236000 + quality values, 224000 237000 008023 + two 224255) -/
+def exW : List Desc :=
+  [.elem (exE 12001 12), .elem (exE 12002 12), .op 222000, .op 236000, .fixedRep 101002 [.elem exB],
+   .fixedRep 101002 [.elem exQ33], .op 224000, .op 237000, .elem (exM 8023), .fixedRep 101002 [.op 224255]]
+
+example : wireLinksOK exW = true := by decide +kernel
+example : Spec.WFlinks exW := by decide +kernel
+example : ((decodeSubset exW (zeros' 200)).toOption.map fun r => Spec.markersOk (r.1.descs.zip r.1.vals)) = some true := by
+  decide +kernel
+example : linkStatement exW (zeros' 200) = true := by decide +kernel
 
 end Bufr
